@@ -22,7 +22,7 @@ ghost(F_MQ, "MessageQueue.publish", "message_id = str(uuid.uuid4())",
       "_c19_fresh_id(self, message_id)")
 ghost(F_MQ, "MessageQueue.publish", "msg = Message(",
       "msg.g_seq = self.g_next_seq; self.g_next_seq = self.g_next_seq + 1")
-ghost(F_MQ, "MessageQueue.publish", "self._pending_queue.append(message_id)",
+ghost(F_MQ, "MessageQueue.publish", "self._messages_published += 1",
       "self.g_issued.add(message_id)")
 ghost(F_MQ, "MessageQueue.acknowledge", "self._messages.pop(message_id, None)",
       "self.g_acked.add(message_id)")
@@ -48,9 +48,29 @@ def _is_suffix(now, old):
     return mk_bool(z3.And(z3.Length(a) <= z3.Length(b), a == z3.Extract(b, z3.Length(b) - z3.Length(a), z3.Length(a))))
 
 
+# Topic.publish_sync: for subscription in self._subscriptions.values()   (delivery_events is mutated in place: typed)
+loop(F_TOPIC, "Topic.publish_sync", 1,
+     modifies=[("Subscription", "messages_received"), ("Topic", "_messages_delivered")]
+     + [("Event", f) for f in ("time", "event_type", "daemon", "target", "on_complete", "_sort_index", "_id", "_cancelled", "context")],
+     types={"delivery_events": lambda: Seq(Ref(Event)), "delivery_event": lambda: Ref(Event)},
+     inv=[("one-delivery-per-active-subscription-so-far", lambda L: _sync_inv(L)),
+          ("events-are-deliveries-stamped-now", lambda L: _sync_events(L, L.delivery_events))])
+
+# EventLog._do_read: for rec in partition.records   (result is mutated in place: typed)
+loop(F_LOG, "EventLog._do_read", 1, modifies=[],
+     types={"result": lambda: Seq(RECORD), "rec": lambda: RECORD},
+     inv=[("result-is-the-gap-free-run-from-the-requested-offset", lambda L: _read_inv(L))])
+
+# ConsumerGroup.handle_event: loop 2 = Commit: for pid, offset in offsets.items()
+loop(F_CG, "ConsumerGroup.handle_event", 2, modifies=[("ConsumerGroup", "_committed_offsets")],
+     types={"pid": lambda: Int, "offset": lambda: Int},
+     inv=[("committed-never-backwards-and-only-this-consumer", lambda L: _commit_inv(L))])
+ghost(F_CG, "ConsumerGroup.handle_event", None, "event = _c19_typed_event(event)", where="entry")
+
 from specs.common import *  # noqa: E402,F401
 from pyvc import ctx as _ctx  # noqa: E402
 from pyvc.heap import Box  # noqa: E402
+from pyvc.sym import SymStr  # noqa: E402
 
 import happysimulator.components.messaging.message_queue as _mq_mod  # noqa: E402
 from happysimulator.components.messaging.message_queue import MessageQueue, Message, MessageState  # noqa: E402
@@ -427,7 +447,26 @@ class _UuidShim:
 
 
 _mq_mod.uuid = _UuidShim
-_mq_mod._c19_opt_str = lambda name: Opt(Str).fresh(name)
+
+
+class _TruthyStr(SymStr):
+    """a symbolic str known to be non-empty (truth test without a string-length constraint)"""
+    __slots__ = ()
+
+    def __bool__(self):
+        return True
+
+
+def _opt_str(name):
+    """context value typed `str | None`: None stands for absent and for the empty string (the handlers treat
+    both alike: `if message_id:`), otherwise an arbitrary non-empty string"""
+    c = _ctx.cur()
+    if c.branch(c.fresh(name + "_absent", z3.BoolSort()), site="ctx:" + name):
+        return None
+    return _TruthyStr(c.fresh(name, z3.StringSort()))
+
+
+_mq_mod._c19_opt_str = _opt_str
 
 
 def last_uuid():
@@ -795,5 +834,274 @@ fn(MessageQueue, "handle_event", args={"event": Ref(Event)},
    ensures=[
     ("at-most-one-delivery-stamped-now", _handle_result_shape),
     ("other-events-ignored", lambda s: implies(
-        (s.event.event_type != "poll") & (s.event.event_type != "message_redelivery"),
+        (s.old(s.event).event_type != "poll") & (s.old(s.event).event_type != "message_redelivery"),
         (len(s.result) == 0) and unchanged(s, s.self)))])
+
+
+# ============================================================================ C. Topic
+import happysimulator.components.messaging.topic as _topic_mod  # noqa: E402
+from happysimulator.components.messaging.topic import Topic, Subscription  # noqa: E402
+
+PROPERTY["assumptions"] += [
+    "Topic: message retention/replay (set_retain_messages) and the max_subscribers limit are not configured "
+    "(_retain_messages is False, _max_subscribers is None): the bounded deque(maxlen) history and the generator-expression "
+    "subscriber count are outside the modelled fragment",
+]
+
+SUBMAP = Map(Ref(Entity), Ref(Subscription), ordered=True)
+cls(Subscription, fields={"subscriber": Ref(Entity), "subscribed_at": TIME, "messages_received": Int, "active": Bool})
+
+
+class TV:
+    """raw views of a Topic in the state `o` looks at"""
+
+    def __init__(self, o):
+        c = _ctx.cur()
+        fz = o._frozen
+        m = z3.Select(c.heap.array(("Topic", "_subscriptions"), SUBMAP, fz), o._ref)
+        self.D, self.V, self.K = SUBMAP.dt.dom(m), SUBMAP.dt.val(m), SUBMAP.dt.keys(m)
+        self.n = z3.Length(self.K)
+        self.size = SUBMAP.dt.size(m)
+        self.A_sub = c.heap.array(("Subscription", "subscriber"), Ref(Entity), fz)
+        self.A_act = c.heap.array(("Subscription", "active"), Bool, fz)
+        self.A_rcv = c.heap.array(("Subscription", "messages_received"), Int, fz)
+        self.delivered = z3.Select(c.heap.array(("Topic", "_messages_delivered"), Int, fz), o._ref)
+
+    def sub(self, j):
+        """the subscription object of the j-th key"""
+        return self.V[self.K[j]]
+
+
+def _topic_inv(o):
+    v = TV(o)
+    alloc = _ctx.cur().heap.alloc
+    return (mk_bool(v.n == v.size)
+            & forall(Int, lambda j: mk_bool(z3.Implies(z3.And(j.t >= 0, j.t < v.n), z3.And(
+                v.D[v.K[j.t]], v.sub(j.t) >= 1, v.sub(j.t) <= alloc, v.A_sub[v.sub(j.t)] == v.K[j.t]))))
+            & forall(Int, lambda a: forall(Int, lambda b: mk_bool(z3.Implies(
+                z3.And(a.t >= 0, a.t < b.t, b.t < v.n), v.K[a.t] != v.K[b.t]))))
+            & forall(Int, lambda e: mk_bool(z3.Implies(v.D[e.t], z3.And(
+                v.V[e.t] >= 1, v.V[e.t] <= alloc, v.A_sub[v.V[e.t]] == e.t)))))
+
+
+cls(Topic, fields={"_delivery_latency": Real, "_max_subscribers": Opt(Int), "_subscriptions": SUBMAP,
+                   "_message_history": Seq(Ref(Event)), "_retain_messages": Bool, "_messages_published": Int,
+                   "_messages_delivered": Int, "_subscribers_added": Int, "_subscribers_removed": Int,
+                   "_delivery_latencies": Seq(Real)},
+    const=["_delivery_latency", "_max_subscribers"],
+    inv=[("subscriptions-keyed-by-their-subscriber-keys-distinct", _topic_inv),
+         ("latency-nonneg", lambda o: o._delivery_latency >= 0)])
+
+TOPIC_CFG = [("no-retention", lambda s: Not(s.self._retain_messages)), ("no-subscriber-limit", lambda s: s.self._max_subscribers is None)]
+
+
+def _other_subs_same(s, who):
+    o, n = TV(s.old(s.self)), TV(s.self)
+    return forall(Int, lambda e: mk_bool(z3.Implies(z3.And(e.t != who._ref, o.D[e.t]), z3.And(
+        n.D[e.t], n.V[e.t] == o.V[e.t], n.A_act[n.V[e.t]] == o.A_act[o.V[e.t]], n.A_rcv[n.V[e.t]] == o.A_rcv[o.V[e.t]]))))
+
+
+fn(Topic, "subscribe", args={"subscriber": Ref(Entity), "replay_history": Bool}, requires=TOPIC_CFG, ensures=[
+    ("subscribed-and-active", lambda s: mk_bool(z3.And(
+        TV(s.self).D[s.subscriber._ref], TV(s.self).A_act[TV(s.self).V[s.subscriber._ref]]))),
+    ("other-subscriptions-untouched", lambda s: _other_subs_same(s, s.subscriber)),
+    ("nobody-else-subscribed", lambda s: forall(Int, lambda e: mk_bool(z3.Implies(
+        z3.And(TV(s.self).D[e.t], e.t != s.subscriber._ref), TV(s.old(s.self)).D[e.t])))),
+    ("no-replay-without-retention", lambda s: len(s.result) == 0)])
+
+fn(Topic, "unsubscribe", args={"subscriber": Ref(Entity)}, ensures=[
+    ("no-longer-active", lambda s: mk_bool(z3.Implies(
+        TV(s.self).D[s.subscriber._ref], z3.Not(TV(s.self).A_act[TV(s.self).V[s.subscriber._ref]])))),
+    ("other-subscriptions-untouched", lambda s: _other_subs_same(s, s.subscriber)),
+    ("keys-kept", lambda s: mk_bool(TV(s.self).D == TV(s.old(s.self)).D))])
+
+
+def _lst(x):
+    """z3 sequence of a list local that is a Python list before the loop cut and a SymList afterwards"""
+    if isinstance(x, SymList):
+        return x.term
+    return Seq(Ref(Event)).unwrap(x)
+
+
+def _sync_inv(L):
+    o, n = TV(L.old(L.self)), TV(L.self)
+    i = num(L.i)
+    evs = _lst(L.delivery_events)
+    return (forall(Int, lambda j: mk_bool(z3.Implies(z3.And(j.t >= 0, j.t < n.n), n.A_rcv[n.sub(j.t)] == o.A_rcv[n.sub(j.t)]
+                                                     + z3.If(z3.And(j.t < i, n.A_act[n.sub(j.t)]), 1, 0))))
+            & mk_bool(z3.Length(evs) == n.delivered - o.delivered))
+
+
+def _sync_events(L_or_s, events, topic=None):
+    """every emitted event is a topic delivery stamped `now`, addressed to an ACTIVE subscriber"""
+    me = topic if topic is not None else L_or_s.self
+    n = TV(me)
+    c = _ctx.cur()
+    evs = _lst(events)
+    A_t, A_ty = c.heap.array(("Event", "time"), TIME), c.heap.array(("Event", "event_type"), Str)
+    A_tg, A_c = c.heap.array(("Event", "target"), Ref(Entity)), c.heap.array(("Event", "_cancelled"), Bool)
+    now = TIME.unwrap(me._clock._current_time)
+    return forall(Int, lambda m: mk_bool(z3.Implies(z3.And(m.t >= 0, m.t < z3.Length(evs)), z3.And(
+        A_t[evs[m.t]] == now, A_ty[evs[m.t]] == z3.StringVal("topic_message"), z3.Not(A_c[evs[m.t]]),
+        n.D[A_tg[evs[m.t]]], n.A_act[n.V[A_tg[evs[m.t]]]]))))
+
+
+def _sync_post(s):
+    o, n = TV(s.old(s.self)), TV(s.self)
+    return forall(Int, lambda j: mk_bool(z3.Implies(z3.And(j.t >= 0, j.t < n.n), n.A_rcv[n.sub(j.t)] == o.A_rcv[n.sub(j.t)]
+                                                    + z3.If(n.A_act[n.sub(j.t)], 1, 0))))
+
+
+fn(Topic, "publish_sync", args={"message": Ref(Event)}, requires=TOPIC_CFG, ensures=[
+    ("every-active-subscription-receives-exactly-once", _sync_post),
+    ("one-event-per-delivery", lambda s: slen(s.result) == s.self._messages_delivered - s.old(s.self)._messages_delivered),
+    ("events-reach-active-subscribers-stamped-now", lambda s: _sync_events(s, s.result)),
+    ("published-counted", lambda s: s.self._messages_published == s.old(s.self)._messages_published + 1),
+    ("subscriptions-kept", lambda s: unchanged(s, s.self, "_subscriptions"))])
+
+
+# ============================================================================ D. EventLog
+import happysimulator.components.streaming.event_log as _log_mod  # noqa: E402
+from happysimulator.components.streaming.event_log import EventLog, Partition, Record, SizeRetention  # noqa: E402
+from happysimulator.components.datastore.sharded_store import HashSharding  # noqa: E402
+from pyvc.extern import _uf  # noqa: E402
+
+PROPERTY["trusted"] += ["hashlib.md5: deterministic function of its input (uninterpreted), pyvc/extern.py"]
+PROPERTY["assumptions"] += [
+    "EventLog: the sharding strategy is the default HashSharding; the retention policy is None or a SizeRetention "
+    "(TimeRetention filters with a conditional comprehension, outside the modelled fragment)",
+]
+
+RECORD = valueclass("Record", [Record], [("offset", Int), ("key", Str), ("value", Any), ("timestamp", Real), ("partition", Int)])
+cls(Partition, fields={"id": Int, "records": Seq(RECORD), "high_watermark": Int})
+cls(HashSharding, fields={})
+cls(SizeRetention, fields={"_max_records": Int}, inv=[("positive", lambda o: o._max_records >= 1)])
+
+
+class LV:
+    """raw views of an EventLog in the state `o` looks at"""
+
+    def __init__(self, o):
+        c = _ctx.cur()
+        fz = o._frozen
+        self.parts = z3.Select(c.heap.array(("EventLog", "_partitions"), Seq(Ref(Partition)), fz), o._ref)
+        self.n = z3.Select(c.heap.array(("EventLog", "_num_partitions"), Int, fz), o._ref)
+        self.A_id = c.heap.array(("Partition", "id"), Int, fz)
+        self.A_rec = c.heap.array(("Partition", "records"), Seq(RECORD), fz)
+        self.A_hw = c.heap.array(("Partition", "high_watermark"), Int, fz)
+
+    def rec(self, i):
+        return self.A_rec[self.parts[i]]
+
+    def hw(self, i):
+        return self.A_hw[self.parts[i]]
+
+    def low(self, i):
+        """retention low mark of partition i: offset of its oldest retained record"""
+        return self.hw(i) - z3.Length(self.rec(i))
+
+
+def _log_shape(o):
+    v = LV(o)
+    alloc = _ctx.cur().heap.alloc
+    return mk_bool(z3.And(z3.Length(v.parts) == v.n, v.n >= 1)) & forall(Int, lambda i: mk_bool(z3.Implies(
+        z3.And(i.t >= 0, i.t < v.n), z3.And(v.parts[i.t] >= 1, v.parts[i.t] <= alloc, v.A_id[v.parts[i.t]] == i.t,
+                                            v.low(i.t) >= 0))))
+
+
+def _log_offsets(o):
+    """offsets within a partition are gap free and increasing between the retention low mark and the high watermark"""
+    v = LV(o)
+    R = RECORD.dt
+    return forall(Int, lambda i: forall(Int, lambda j: mk_bool(z3.Implies(
+        z3.And(i.t >= 0, i.t < v.n, j.t >= 0, j.t < z3.Length(v.rec(i.t))),
+        z3.And(R.offset(v.rec(i.t)[j.t]) == v.low(i.t) + j.t, R.partition(v.rec(i.t)[j.t]) == i.t)))))
+
+
+cls(EventLog, fields={"_num_partitions": Int, "_sharding": Ref(HashSharding), "_retention_policy": OptRef(SizeRetention),
+                      "_append_latency": Real, "_read_latency": Real, "_retention_check_interval": Real,
+                      "_partitions": Seq(Ref(Partition)), "_retention_scheduled": Bool, "_records_appended": Int,
+                      "_records_read": Int, "_records_expired": Int, "_per_partition_appends": Map(Int, Int),
+                      "_append_latencies": Seq(Real)},
+    const=["_num_partitions", "_sharding", "_retention_policy", "_partitions"],
+    inv=[("one-partition-object-per-id", _log_shape),
+         ("offsets-gap-free-from-low-mark-to-high-watermark", _log_offsets)])
+
+
+def key_hash(key):
+    """the uninterpreted md5 value the hashlib shim uses (a function of the key only)"""
+    return _uf("hash_md5", z3.StringSort(), z3.IntSort())(_kt(key))
+
+
+def shard_of(key, n):
+    h = key_hash(key)
+    nn = num(n)
+    return h - nn * z3.If(nn > 0, h / nn, (-h) / (-nn))          # Python's h % n as the code computes it
+
+
+fn(EventLog, "_get_partition_for_key", args={"key": Str}, ensures=[
+    ("in-range", lambda s: (s.result >= 0) & (s.result < s.self._num_partitions)),
+    ("function-of-key-and-partition-count-only", lambda s: mk_bool(num(s.result) == shard_of(s.key, s.self._num_partitions))),
+    ("pure", lambda s: unchanged(s, s.self))])
+
+
+def _append_post(s):
+    o, n = LV(s.old(s.self)), LV(s.self)
+    r = RECORD.unwrap(s.result)
+    R = RECORD.dt
+    pid = shard_of(s.key, s.self._num_partitions)
+    return (mk_bool(z3.And(R.offset(r) == o.hw(pid), n.hw(pid) == o.hw(pid) + 1,
+                           n.rec(pid) == z3.Concat(o.rec(pid), z3.Unit(r)),
+                           R.partition(r) == pid, R.key(r) == _kt(s.key), R.value(r) == s.value.t))
+            & forall(Int, lambda i: mk_bool(z3.Implies(z3.And(i.t >= 0, i.t < n.n, i.t != pid),
+                                                       z3.And(n.rec(i.t) == o.rec(i.t), n.hw(i.t) == o.hw(i.t))))))
+
+
+fn(EventLog, "_do_append", args={"key": Str, "value": Any}, ensures=[
+    ("appended-at-the-high-watermark-of-the-keys-partition", _append_post),
+    ("counted", lambda s: s.self._records_appended == s.old(s.self)._records_appended + 1)])
+
+
+def _read_k0(L_or_s, v, pid):
+    off = num(L_or_s.offset)
+    d = off - v.low(pid)
+    return z3.If(d > 0, d, z3.IntVal(0))
+
+
+def _read_inv(L):
+    v = LV(L.self)
+    pid = num(L.partition_id)
+    recs = v.rec(pid)
+    i = num(L.i)
+    _ctx.cur().note_term(i)
+    res = L.result.term if isinstance(L.result, SymList) else Seq(RECORD).unwrap(L.result)
+    k0 = _read_k0(L, v, pid)
+    ln = z3.If(i > k0, i - k0, z3.IntVal(0))
+    return mk_bool(z3.And(res == z3.Extract(recs, k0, ln), z3.Length(res) == ln,
+                          z3.Or(z3.Length(res) == 0, z3.Length(res) < num(L.max_records)),
+                          seq_term(L.seq) == recs))
+
+
+def _read_post(s):
+    v = LV(s.self)
+    if isinstance(s.result, list) and not s.result:
+        res = z3.Empty(z3.SeqSort(RECORD.sort()))
+    else:
+        res = s.result.term
+    pid = num(s.partition_id)
+    in_range = z3.And(pid >= 0, pid < v.n)
+    recs = v.rec(pid)
+    k0 = _read_k0(s, v, pid)
+    mx = num(s.max_records)
+    return mk_bool(z3.And(
+        z3.Implies(z3.Not(in_range), z3.Length(res) == 0),
+        z3.Implies(in_range, z3.And(
+            res == z3.Extract(recs, k0, z3.Length(res)),                         # the gap-free run starting at the first
+            z3.Or(z3.Length(res) <= mx, z3.Length(res) == 1),                    # offset >= requested; bounded by max_records
+            z3.Or(z3.Length(res) >= mx, k0 + z3.Length(res) >= z3.Length(recs))))))   # short only at the high watermark
+
+
+fn(EventLog, "_do_read", args={"partition_id": Int, "offset": Int, "max_records": Int}, ensures=[
+    ("returns-the-gap-free-run-from-the-requested-offset-in-offset-order", _read_post),
+    ("counted", lambda s: s.self._records_read == s.old(s.self)._records_read + slen(s.result)),
+    ("log-untouched", lambda s: unchanged(s, s.self, "_partitions", "_num_partitions"))])
